@@ -4,8 +4,8 @@
 use crate::rng::Rng;
 use crate::world::World;
 
-pub const KINDS: [&str; 13] = [
-    "torn-in-literal", "torn-write", "lost-write", "write-replay", "interleaved-versions", "bit-flip", "byte-substitution", "crlf", "lone-cr", "nul-bytes", "bom", "size-multiplier", "invalid-utf8",
+pub const KINDS: [&str; 14] = [
+    "filled-block", "torn-in-literal", "torn-write", "lost-write", "write-replay", "interleaved-versions", "bit-flip", "byte-substitution", "crlf", "lone-cr", "nul-bytes", "bom", "size-multiplier", "invalid-utf8",
 ];
 
 /// Apply one content fault of `kind` to `path`. Returns false if it did not change anything.
@@ -29,6 +29,20 @@ pub fn apply(world: &mut World, path: &str, kind: &str, r: &mut Rng, allow_binar
             }
             let at = *r.pick(&marks) + 1 + r.usize(6);
             bytes.truncate(at.min(bytes.len()));
+        }
+        "filled-block" => {
+            // a block that was allocated but never written, or overwritten by a repeated byte:
+            // 64 B .. 64 KiB of one value
+            let fill = *r.pick(&[0u8, 0xFF, b' ', b'\n', b'.', b'#', b'"', b'(', b',', b'-', b'0', b'\'']);
+            let len = 64usize << r.usize(11);
+            let at = r.usize(bytes.len() + 1);
+            let block = vec![fill; len];
+            if r.chance(1, 2) {
+                let end = (at + len).min(bytes.len());
+                bytes.splice(at..end, block);
+            } else {
+                bytes.splice(at..at, block);
+            }
         }
         "lost-write" => bytes.clear(),
         "write-replay" => {
